@@ -1,86 +1,202 @@
 package main
 
-// C04: structure of the field-by-field search in SpecSchedule.Next.
+// C04: the field-by-field search of SpecSchedule.Next, analysed on terms
+// (c04term.go): bit tests, steps, resets, DST fix-ups and carry tests are
+// recognised wherever they are written — in Next, in a helper function, in a
+// method or in a closure — and whatever the loop / branch / goto form is.
 
 import (
 	"fmt"
 	"go/token"
-	"go/types"
+	"sort"
+	"strings"
 
 	"golang.org/x/tools/go/ssa"
 )
 
-// unit order used for "lower-order" / "higher-order" reasoning
-var c04UnitOrder = map[string]int{"Second": 0, "Minute": 1, "Hour": 2, "Day": 3, "Month": 4, "Year": 5}
-
-// accessors of time.Time that identify a unit at least as coarse as the key
-var c04AccessorUnit = map[string]int{"Second": 0, "Minute": 1, "Hour": 2, "Day": 3, "Weekday": 3, "YearDay": 3, "Month": 4, "Year": 5}
+type c04AtomAt struct {
+	c04Atom
+	Fn  string
+	Pos token.Pos
+}
 
 type c04Loop struct {
 	Unit    string // "Month","Day","Hour","Minute","Second"
 	If      *ssa.If
-	Header  *ssa.BasicBlock
+	Header  *ssa.BasicBlock // target of the back edges
 	Clear   *ssa.BasicBlock // successor taken while the field does not match
 	Set     *ssa.BasicBlock
-	Body    map[*ssa.BasicBlock]bool
+	Body    map[*ssa.BasicBlock]bool // natural loop of Header, Header included
 	IsLoop  bool
-	Flipped bool // the matching edge is the one that loops
+	Flipped bool      // the matching edge is the one that loops
+	DayCall *ssa.Call // Day: the call computing the day condition (nil if computed in Next itself)
+	DayVal  ssa.Value // Day: the boolean value computed in Next itself (DayCall == nil)
+	DayNeg  bool      // Day: the branch condition is the negation of that call/value
 }
 
-func c04ConstInt(v ssa.Value) (int64, bool) {
-	k, ok := v.(*ssa.Const)
-	if !ok || k.Value == nil {
-		return 0, false
-	}
-	if _, isInt := k.Type().Underlying().(*types.Basic); !isInt {
-		return 0, false
-	}
-	if b := k.Type().Underlying().(*types.Basic); b.Info()&types.IsInteger == 0 {
-		return 0, false
-	}
-	return k.Int64(), true
+// c04NextA is the analysis state shared by the rules about Next.
+type c04NextA struct {
+	st    *c04State
+	next  *ssa.Function
+	tb    *c04TermBuilder
+	root  *c04Frame2
+	atoms []c04AtomAt
+	loops map[string]*c04Loop
+	// dayMeansMatch: the day function returns true when the day matches (false: it is a "mismatch" predicate)
+	dayMeansMatch bool
+	dayDecided    bool
 }
 
-// natural loop of header h entered through succ `into`.
-func c04NaturalLoop(h, into *ssa.BasicBlock) map[*ssa.BasicBlock]bool {
-	fwd := reachableFrom(into, map[*ssa.BasicBlock]bool{h: true})
+func (st *c04State) analyseNext() *c04NextA {
+	p := st.p
+	na := &c04NextA{st: st, next: p.Func("cron", "SpecSchedule.Next")}
+	na.tb = newC04TermBuilder(p)
+	na.root = na.tb.Root(na.next)
+	seen := map[string]bool{}
+	na.tb.VisitTree(na.root, func(fr *c04Frame2, in ssa.Instruction) {
+		bo, ok := in.(*ssa.BinOp)
+		if !ok || bo.Op != token.AND {
+			return
+		}
+		a, ok := c04BitAtom(na.tb.Term(fr, bo), st.spec)
+		if !ok || c04RoleOf(a.Field) == nil {
+			return
+		}
+		k := a.Kind + "|" + a.Field + "|" + a.Accessor + "|" + fmt.Sprint(a.K) + "|" + FuncName(p, fr.fn)
+		if seen[k] {
+			return
+		}
+		seen[k] = true
+		na.atoms = append(na.atoms, c04AtomAt{a, FuncName(p, fr.fn), bo.Pos()})
+	})
+	return na
+}
+
+// nextClosure: Next and the module functions it statically calls.
+func (st *c04State) nextClosure() []*ssa.Function {
+	next := st.p.Func("cron", "SpecSchedule.Next")
+	seen := map[*ssa.Function]bool{next: true}
+	order := []*ssa.Function{next}
+	for i := 0; i < len(order); i++ {
+		allInstrs(order[i], func(in ssa.Instruction) {
+			if c, ok := in.(ssa.CallInstruction); ok {
+				if f := staticCallee(c); f != nil && st.p.InModule(f) && !seen[f] {
+					seen[f] = true
+					order = append(order, f)
+				}
+			}
+		})
+	}
+	return order
+}
+
+func (st *c04State) specFieldLoad(v ssa.Value) (string, bool) {
+	switch x := v.(type) {
+	case *ssa.UnOp:
+		if x.Op == token.MUL {
+			if fa, ok := x.X.(*ssa.FieldAddr); ok {
+				if id := fieldIDOfAddr(fa); id.Type == st.spec {
+					return id.Field, true
+				}
+			}
+		}
+	case *ssa.Field:
+		if id := fieldIDOfField(x); id.Type == st.spec {
+			return id.Field, true
+		}
+	}
+	return "", false
+}
+
+// checkMatcher: P3, and the star bit (the mask the day rule tests Dom/Dow with).
+func (st *c04State) checkMatcher() *c04NextA {
+	r, p := st.r, st.p
+	na := st.analyseNext()
+	loaded := map[string]bool{}
+	for _, fn := range st.nextClosure() {
+		allInstrs(fn, func(in ssa.Instruction) {
+			if v, ok := in.(ssa.Value); ok {
+				if f, ok := st.specFieldLoad(v); ok {
+					loaded[f] = true
+				}
+			}
+		})
+	}
+	for _, role := range c04Roles {
+		construct := "cron.SpecSchedule." + role.Field + " bit test"
+		var good, bad []c04AtomAt
+		for _, a := range na.atoms {
+			if a.Kind != "match" || a.Field != role.Field {
+				continue
+			}
+			if a.Accessor == role.Accessor {
+				good = append(good, a)
+			} else {
+				bad = append(bad, a)
+			}
+		}
+		switch {
+		case len(bad) > 0:
+			r.Violation("C04.P3-matcher", construct, p.Pos(bad[0].Pos), fmt.Sprintf("%s tests SpecSchedule.%s (parsed from the %s column) against t.%s() instead of t.%s()", bad[0].Fn, role.Field, role.Field, bad[0].Accessor, role.Accessor))
+		case len(good) > 0:
+			r.OK("C04.P3-matcher", construct, p.Pos(good[0].Pos), fmt.Sprintf("%s: 1<<t.%s() & s.%s", good[0].Fn, role.Accessor, role.Field))
+		case !loaded[role.Field]:
+			r.Violation("C04.P3-matcher", construct, p.Pos(na.next.Pos()), "Next (and the functions it calls) never reads SpecSchedule."+role.Field+": the "+role.Field+" column of the expression does not restrict the result")
+		default:
+			r.Undecide("SpecSchedule.%s is read by Next but not in the form 1<<t.%s() & s.%s: matcher pairing cannot be decided", role.Field, role.Accessor, role.Field)
+		}
+	}
+	// the star bit: the one constant Dom/Dow are masked with
+	masks := map[uint64]bool{}
+	for _, a := range na.atoms {
+		if a.Kind == "mask" && (a.Field == "Dom" || a.Field == "Dow") {
+			masks[a.K] = true
+		}
+	}
+	if len(masks) == 1 {
+		for k := range masks {
+			st.starBit = k
+		}
+	} else if len(masks) > 1 {
+		r.Undecide("Next masks SpecSchedule.Dom/Dow with %d different constants: the star bit does not resolve", len(masks))
+	}
+	return na
+}
+
+// ---------------------------------------------------------------------------
+// loops
+
+// c04LoopOf: natural loop of header h (h included): blocks dominated by h that reach a back edge to h.
+func c04LoopOf(h *ssa.BasicBlock) map[*ssa.BasicBlock]bool {
 	body := map[*ssa.BasicBlock]bool{}
-	// blocks dominated by h, reachable from `into` without h, that can reach h
-	var canReach func(b *ssa.BasicBlock, seen map[*ssa.BasicBlock]bool) bool
-	canReach = func(b *ssa.BasicBlock, seen map[*ssa.BasicBlock]bool) bool {
-		if seen[b] {
-			return false
+	var up func(b *ssa.BasicBlock)
+	up = func(b *ssa.BasicBlock) {
+		if body[b] || !h.Dominates(b) {
+			return
 		}
-		seen[b] = true
-		for _, s := range b.Succs {
-			if s == h {
-				return true
-			}
-			if fwd[s] && h.Dominates(s) && canReach(s, seen) {
-				return true
-			}
+		body[b] = true
+		if b == h {
+			return
 		}
-		return false
+		for _, pb := range b.Preds {
+			up(pb)
+		}
 	}
-	for b := range fwd {
-		if h.Dominates(b) && canReach(b, map[*ssa.BasicBlock]bool{}) {
-			body[b] = true
+	for _, pb := range h.Preds {
+		if h.Dominates(pb) {
+			body[h] = true
+			up(pb)
 		}
 	}
 	return body
 }
 
-func (st *c04State) findLoops(next *ssa.Function, ands []c04And) map[string]*c04Loop {
-	loops := map[string]*c04Loop{}
-	dayMatches := st.p.FuncOpt("cron", "dayMatches")
-	andOf := map[ssa.Value]c04And{}
-	for _, a := range ands {
-		if a.Kind == "match" && a.Fn == next {
-			andOf[a.Op] = a
-		}
-	}
+func (na *c04NextA) findLoops() {
+	st := na.st
+	na.loops = map[string]*c04Loop{}
 	unitOfField := map[string]string{"Second": "Second", "Minute": "Minute", "Hour": "Hour", "Month": "Month"}
-	allInstrs(next, func(in ssa.Instruction) {
+	dayValOf := map[*ssa.If]ssa.Value{}
+	allInstrs(na.next, func(in ssa.Instruction) {
 		ifi, ok := in.(*ssa.If)
 		if !ok {
 			return
@@ -88,138 +204,379 @@ func (st *c04State) findLoops(next *ssa.Function, ands []c04And) map[string]*c04
 		b := ifi.Block()
 		var unit string
 		var clear, set *ssa.BasicBlock
-		if cmp, ok := decodeCond(ifi.Cond, true); ok {
-			x, y, op := cmp.X, cmp.Y, cmp.Op
-			if _, isAnd := andOf[y]; isAnd {
+		var dayCall *ssa.Call
+		dayNeg := false
+		ct := na.tb.Term(na.root, ifi.Cond)
+		if op, x, y, ok := c04CmpTerm(ct, true); ok {
+			if _, isAtom := c04BitAtom(y, st.spec); isAtom {
 				x, y = y, x
-				switch op {
-				case token.LSS:
-					op = token.GTR
-				case token.GTR:
-					op = token.LSS
-				case token.LEQ:
-					op = token.GEQ
-				case token.GEQ:
-					op = token.LEQ
+				op = c04FlipOp(op)
+			}
+			a, isAtom := c04BitAtom(x, st.spec)
+			if isAtom && a.Kind == "match" && y.Op == "const" && y.IsK {
+				if u, okU := unitOfField[a.Field]; okU {
+					k := y.K
+					zeroOnTrue, known := false, true
+					switch {
+					case op == token.EQL && k == 0, op == token.LEQ && k == 0, op == token.LSS && k == 1:
+						zeroOnTrue = true
+					case op == token.NEQ && k == 0, op == token.GTR && k == 0, op == token.GEQ && k == 1:
+					default:
+						known = false
+					}
+					if known {
+						unit = u
+						if zeroOnTrue {
+							clear, set = b.Succs[0], b.Succs[1]
+						} else {
+							clear, set = b.Succs[1], b.Succs[0]
+						}
+					}
 				}
 			}
-			a, isAnd := andOf[x]
-			if !isAnd {
+		}
+		if unit == "" {
+			// the day condition: a call whose inlined body tests Dom and Dow
+			cond := ifi.Cond
+			for {
+				u, ok := cond.(*ssa.UnOp)
+				if !ok || u.Op != token.NOT {
+					break
+				}
+				cond, dayNeg = u.X, !dayNeg
+			}
+			var dayVal ssa.Value
+			call, ok := cond.(*ssa.Call)
+			if !ok {
+				// the day rule written out in Next itself: a boolean merged from tests of Dom and Dow
+				// (with && / || the tests are partly control flow, so look at the blocks between the
+				// enclosing loop header and this branch rather than at the value's operands)
+				if _, isPhi := cond.(*ssa.Phi); !isPhi {
+					return
+				}
+				var h0 *ssa.BasicBlock
+				for h := b; h != nil && h0 == nil; h = h.Idom() {
+					for _, pb := range h.Preds {
+						if h.Dominates(pb) {
+							h0 = h
+						}
+					}
+				}
+				if h0 == nil || h0 == b {
+					return
+				}
+				fwd := reachableFrom(h0, map[*ssa.BasicBlock]bool{b: true})
+				dom, dow := false, false
+				for blk := range fwd {
+					if !h0.Dominates(blk) || (blk != h0 && !reachableFrom(blk, map[*ssa.BasicBlock]bool{h0: true})[b]) {
+						continue
+					}
+					for _, in2 := range blk.Instrs {
+						if bo, ok := in2.(*ssa.BinOp); ok && bo.Op == token.AND {
+							if a, ok := c04BitAtom(na.tb.Term(na.root, bo), st.spec); ok && a.Kind == "match" {
+								dom = dom || a.Field == "Dom"
+								dow = dow || a.Field == "Dow"
+							}
+						}
+					}
+				}
+				if !(dom && dow) {
+					return
+				}
+				dayVal = cond
+			}
+			dom, dow := dayVal != nil, dayVal != nil
+			visited := dayVal != nil || na.tb.VisitCall(na.root, call, func(fr *c04Frame2, in2 ssa.Instruction) {
+				if bo, ok := in2.(*ssa.BinOp); ok && bo.Op == token.AND {
+					if a, ok := c04BitAtom(na.tb.Term(fr, bo), st.spec); ok && a.Kind == "match" {
+						dom = dom || a.Field == "Dom"
+						dow = dow || a.Field == "Dow"
+					}
+				}
+			})
+			if !visited || !(dom && dow) {
 				return
 			}
-			k, isK := c04ConstInt(y)
-			if !isK {
-				return
-			}
-			u, okU := unitOfField[a.Field]
-			if !okU {
-				return
-			}
-			// on the true edge "and op k" holds; decide which edge means and == 0
-			var zeroOnTrue bool
-			switch {
-			case op == token.EQL && k == 0, op == token.LEQ && k == 0, op == token.LSS && k == 1:
-				zeroOnTrue = true
-			case op == token.NEQ && k == 0, op == token.GTR && k == 0, op == token.GEQ && k == 1:
-				zeroOnTrue = false
-			default:
-				return
-			}
-			unit = u
-			if zeroOnTrue {
-				clear, set = b.Succs[0], b.Succs[1]
-			} else {
-				clear, set = b.Succs[1], b.Succs[0]
-			}
-		} else if call, val, ok := boolCallCond(ifi.Cond, true); ok && dayMatches != nil && staticCallee(call) == dayMatches {
-			unit = "Day"
-			if val {
+			unit, dayCall = "Day", call
+			dayValOf[ifi] = dayVal
+			// which edge is "matches" is decided by the truth table (N1); assume the call
+			// means "matches" for the loop shape, corrected in checkSearch if it means the opposite
+			if !dayNeg {
 				set, clear = b.Succs[0], b.Succs[1]
 			} else {
 				set, clear = b.Succs[1], b.Succs[0]
 			}
-		} else {
-			return
 		}
-		l := &c04Loop{Unit: unit, If: ifi, Header: b, Clear: clear, Set: set}
-		l.Body = c04NaturalLoop(b, clear)
-		l.IsLoop = len(l.Body) > 0
-		if !l.IsLoop {
-			if other := c04NaturalLoop(b, set); len(other) > 0 {
-				l.Flipped = true
+		l := &c04Loop{Unit: unit, If: ifi, Clear: clear, Set: set, DayCall: dayCall, DayNeg: dayNeg, DayVal: dayValOf[ifi]}
+		// header: the innermost dominator of the branch (the block itself first) whose natural loop
+		// contains exactly one of the two successors
+		for h := b; h != nil; h = h.Idom() {
+			body := c04LoopOf(h)
+			if len(body) == 0 || !body[b] {
+				continue
+			}
+			inClear, inSet := body[clear], body[set]
+			if inClear && inSet {
+				// both edges stay inside: this is an enclosing loop (the outer search); keep looking only if nothing found
+				break
+			}
+			if inClear || inSet {
+				l.Header, l.Body = h, body
+				l.IsLoop = inClear
+				l.Flipped = inSet
+				break
 			}
 		}
-		if prev := loops[unit]; prev == nil || (!prev.IsLoop && l.IsLoop) {
-			loops[unit] = l
+		if prev := na.loops[unit]; prev == nil || (!prev.IsLoop && l.IsLoop) {
+			na.loops[unit] = l
 		}
 	})
-	return loops
 }
 
-// derivesFrom: v is reached from `from` through phis only (value identity up to merges).
-func c04ThroughPhis(v ssa.Value, pred func(ssa.Value) bool) bool {
-	seen := map[ssa.Value]bool{}
-	var walk func(v ssa.Value) bool
-	walk = func(v ssa.Value) bool {
-		if seen[v] {
-			return false
+// ---------------------------------------------------------------------------
+// N1 either-day truth table
+
+func (st *c04State) checkDayTable(na *c04NextA) {
+	r, p := st.r, st.p
+	na.findLoops()
+	l := na.loops["Day"]
+	construct := "cron day rule truth table"
+	if l == nil || (l.DayCall == nil && l.DayVal == nil) {
+		r.Undecide("Next: no branch on a value that tests both SpecSchedule.Dom and SpecSchedule.Dow found: the either-day rule cannot be evaluated")
+		return
+	}
+	var callee *ssa.Function
+	what := "the day condition computed in " + FuncName(p, na.next)
+	wpos := c04IfPos(l.If)
+	if l.DayCall != nil {
+		callee = staticCallee(l.DayCall)
+		what = FuncName(p, callee)
+		wpos = callee.Pos()
+	} else if l.Header == nil {
+		r.Undecide("Next: the day condition is not the condition of a loop")
+		return
+	}
+	var wrong, wrongNeg []string
+	for m := 0; m < 16; m++ {
+		domStar, dowStar, dom, dow := m&8 != 0, m&4 != 0, m&2 != 0, m&1 != 0
+		ev := &c04Eval{InModule: p.InModule}
+		ev.Resolve = func(t *c04T) (any, bool) {
+			a, ok := c04BitAtom(t, st.spec)
+			if !ok {
+				return nil, false
+			}
+			on := false
+			val := uint64(2)
+			switch {
+			case a.Kind == "match" && a.Field == "Dom":
+				on = dom
+			case a.Kind == "match" && a.Field == "Dow":
+				on = dow
+			case a.Kind == "mask" && a.Field == "Dom":
+				on, val = domStar, a.K
+			case a.Kind == "mask" && a.Field == "Dow":
+				on, val = dowStar, a.K
+			default:
+				return nil, false
+			}
+			if !on {
+				val = 0
+			}
+			return c04Int{V: val, Bits: 64}, true
 		}
-		seen[v] = true
-		if pred(v) {
-			return true
-		}
-		if ph, ok := v.(*ssa.Phi); ok {
-			for _, e := range ph.Edges {
-				if walk(e) {
-					return true
+		var res any
+		var err error
+		if callee != nil {
+			var args []any
+			for _, a := range l.DayCall.Call.Args {
+				args = append(args, c04SymV{T: na.tb.Term(na.root, a)})
+			}
+			res, err = ev.Run(callee, args)
+		} else {
+			// evaluate the blocks from the loop header to the branch, with everything computed before as symbols
+			init := map[ssa.Value]any{}
+			for i, in := range l.Header.Instrs {
+				ph, ok := in.(*ssa.Phi)
+				if !ok {
+					break
+				}
+				init[ph] = c04SymV{T: &c04T{Op: "leaf", Name: fmt.Sprintf("carried:%d", i)}}
+			}
+			ev.Outer = func(v ssa.Value) (any, bool) {
+				if par, ok := v.(*ssa.Parameter); ok {
+					return c04SymV{T: &c04T{Op: "leaf", Name: "param:" + par.Name()}}, true
+				}
+				return nil, false
+			}
+			res, err = ev.RunRegion(na.next, l.Header, init, l.If)
+			if err == nil {
+				// res is the value of the branch condition itself here; undo the NOT stripping done for DayNeg
+				if bv, ok := res.(bool); ok && l.DayNeg {
+					res = !bv
 				}
 			}
 		}
+		if err != nil {
+			r.Undecide("%s cannot be evaluated as a boolean function of its four bit tests: %v", what, err)
+			return
+		}
+		got, ok := res.(bool)
+		if !ok {
+			r.Undecide("%s does not fold to a boolean: %s", what, c04Describe(res))
+			return
+		}
+		want := dom || dow
+		if domStar || dowStar {
+			want = dom && dow
+		}
+		row := fmt.Sprintf("dom '*'=%v dow '*'=%v dom matches=%v dow matches=%v: returns %v", domStar, dowStar, dom, dow, got)
+		if got != want {
+			wrong = append(wrong, row+fmt.Sprintf(", documented rule gives %v", want))
+		}
+		if got != !want {
+			wrongNeg = append(wrongNeg, row)
+		}
+	}
+	na.dayDecided = true
+	switch {
+	case len(wrong) == 0:
+		na.dayMeansMatch = true
+		r.OK("C04.N1-either-day", construct, p.Pos(wpos), what+": 16/16 rows agree")
+	case len(wrongNeg) == 0:
+		// a "does not match" predicate: equally good, the loop polarity is read accordingly
+		na.dayMeansMatch = false
+		r.OK("C04.N1-either-day", construct, p.Pos(wpos), what+" is the negation of the day rule in 16/16 rows")
+	default:
+		na.dayMeansMatch = true
+		r.Violation("C04.N1-either-day", construct, p.Pos(wpos), fmt.Sprintf("%s differs from the documented day rule (both fields must match when one of them is '*'/'?', either when both are restricted) in %d of 16 cases", what, len(wrong)), wrong...)
+	}
+}
+
+// ---------------------------------------------------------------------------
+// N2 search loops on terms
+
+// timeKids: the instants a time-valued term is computed from.
+func c04TimeKids(t *c04T) (kids []*c04T, known bool) {
+	switch {
+	case t.Op == "leaf":
+		return nil, true
+	case t.Op == "choice":
+		return t.Args, true
+	case t.Op == "tm:Add" || t.Op == "tm:AddDate" || t.Op == "tm:Truncate" || t.Op == "tm:In" || t.Op == "tm:UTC" || t.Op == "tm:Local" || t.Op == "tm:Round":
+		return t.Args[:1], true
+	case t.Op == "date":
+		seen := map[string]bool{}
+		for _, a := range t.Args {
+			a.walk(func(x *c04T) {
+				if strings.HasPrefix(x.Op, "tm:") && len(x.Args) > 0 && c04AccessorUnit[x.Op[3:]] != 0 || x.Op == "tm:Second" || x.Op == "tm:Nanosecond" {
+					if len(x.Args) > 0 && !seen[x.Args[0].Key()] {
+						seen[x.Args[0].Key()] = true
+						kids = append(kids, x.Args[0])
+					}
+				}
+			})
+		}
+		return kids, true
+	}
+	return nil, false
+}
+
+// c04Spine collects the nodes of the time spine of t (down to the loop instant T).
+type c04Spine struct {
+	nodes   []*c04T
+	unknown []string
+}
+
+func c04SpineOf(t *c04T) *c04Spine {
+	sp := &c04Spine{}
+	seen := map[string]bool{}
+	var walk func(x *c04T)
+	walk = func(x *c04T) {
+		if seen[x.Key()] {
+			return
+		}
+		seen[x.Key()] = true
+		kids, known := c04TimeKids(x)
+		if !known {
+			sp.unknown = append(sp.unknown, x.Op+" "+x.Name)
+			return
+		}
+		sp.nodes = append(sp.nodes, x)
+		for _, k := range kids {
+			walk(k)
+		}
+	}
+	walk(t)
+	return sp
+}
+
+// below: node y is on the time spine under node x (x is computed from y).
+func c04Below(x, y *c04T) bool {
+	found := false
+	seen := map[string]bool{}
+	var walk func(n *c04T)
+	walk = func(n *c04T) {
+		if found || seen[n.Key()] {
+			return
+		}
+		seen[n.Key()] = true
+		kids, _ := c04TimeKids(n)
+		for _, k := range kids {
+			if k.Key() == y.Key() {
+				found = true
+				return
+			}
+			walk(k)
+		}
+	}
+	walk(x)
+	return found
+}
+
+func c04TermPos(p *Prog, t *c04T, def token.Pos) string {
+	if t != nil && t.Src != nil {
+		if in, ok := t.Src.(ssa.Instruction); ok {
+			if ps := instrPos(in); ps.IsValid() {
+				return p.Pos(ps)
+			}
+		}
+	}
+	return p.Pos(def)
+}
+
+func c04TermHasAccessor(t *c04T, names ...string) bool {
+	return t.contains(func(x *c04T) bool {
+		if !strings.HasPrefix(x.Op, "tm:") {
+			return false
+		}
+		for _, n := range names {
+			if x.Op[3:] == n {
+				return true
+			}
+		}
 		return false
-	}
-	return walk(v)
+	})
 }
 
-func c04IsTimeType(t types.Type) bool { return namedKey(t) == "time.Time" }
-
-// manualReset: some Add in the loop takes a duration computed from the finest
-// accessors of an instant (a hand-written "subtract minutes and seconds").
-func manualReset(steps []*ssa.Call) bool {
-	for _, s := range steps {
-		if !callIs(s, "time", "Time", "Add") || len(s.Call.Args) != 2 {
-			continue
-		}
-		if c04DependsOnAccessor(s.Call.Args[1], "Minute", "Second", "Nanosecond") {
-			return true
-		}
-	}
-	return false
-}
-
-// c04IfPos: a useful source position for a branch (the If itself has none).
-func c04IfPos(ifi *ssa.If) token.Pos {
-	if in, ok := ifi.Cond.(ssa.Instruction); ok && in.Pos().IsValid() {
-		return in.Pos()
-	}
-	if u, ok := ifi.Cond.(*ssa.UnOp); ok {
-		if in, ok := u.X.(ssa.Instruction); ok && in.Pos().IsValid() {
-			return in.Pos()
-		}
-	}
-	return instrPos(ifi)
-}
-
-func (st *c04State) checkSearch(ands []c04And) {
+func (st *c04State) checkSearch(na *c04NextA) {
 	r, p := st.r, st.p
-	next := p.Func("cron", "SpecSchedule.Next")
-	loops := st.findLoops(next, ands)
+	next := na.next
+	if na.loops == nil {
+		na.findLoops()
+	}
+	loops := na.loops
 	rule := "C04.N2-search"
+	// a day predicate that means "does not match" flips the day loop's edges
+	if l := loops["Day"]; l != nil && na.dayDecided && !na.dayMeansMatch {
+		l.Clear, l.Set = l.Set, l.Clear
+		l.IsLoop, l.Flipped = l.Flipped, l.IsLoop
+	}
 	var headers []*ssa.BasicBlock
 	for _, l := range loops {
-		headers = append(headers, l.Header)
+		if l.Header != nil {
+			headers = append(headers, l.Header)
+		}
 	}
-	// the "top" of the search: a block outside every search loop that dominates every header
-	// and is itself re-entered (target of a back edge). Determined per carry below.
 	isTop := func(w *ssa.BasicBlock) bool {
 		for _, h := range headers {
 			if !w.Dominates(h) {
@@ -231,17 +588,14 @@ func (st *c04State) checkSearch(ands []c04And) {
 	units := []string{"Month", "Day", "Hour", "Minute", "Second"}
 	fieldOfUnit := map[string]string{"Month": "Month", "Day": "Dom/Dow", "Hour": "Hour", "Minute": "Minute", "Second": "Second"}
 	floorOf := map[string]int64{"Month": 1, "Day": 1, "Hour": 0, "Minute": 0, "Second": 0}
-	accOf := map[string]string{"Month": "Month", "Day": "Day", "Hour": "Hour", "Minute": "Minute", "Second": "Second"}
 	for _, u := range units {
 		l := loops[u]
 		base := "cron.SpecSchedule.Next " + u + " loop"
 		if l == nil {
-			// P3 reports a field that is not consulted at all; here the shape is unknown
 			r.Undecide("Next: no branch on the %s bit test found: the search structure for %s cannot be decided", fieldOfUnit[u], u)
 			continue
 		}
 		pos := p.Pos(c04IfPos(l.If))
-		// polarity
 		if !l.IsLoop {
 			if l.Flipped {
 				r.Violation(rule, base+": polarity", pos, "the "+u+" search advances while the field MATCHES and stops when it does not: Next returns instants the expression excludes")
@@ -252,177 +606,246 @@ func (st *c04State) checkSearch(ands []c04And) {
 		}
 		r.OK(rule, base+": polarity", pos, "advances while the bit is clear, leaves when it is set")
 
-		// collect the time-valued calls of the body
-		var resets, steps []*ssa.Call
-		var unknownTime []*ssa.Call
-		for b := range l.Body {
-			for _, in := range b.Instrs {
-				call, ok := in.(*ssa.Call)
-				if !ok || !c04IsTimeType(call.Type()) {
-					continue
-				}
-				switch {
-				case callIs(call, "time", "", "Date"), callIs(call, "time", "Time", "Truncate"):
-					resets = append(resets, call)
-				case callIs(call, "time", "Time", "Add"), callIs(call, "time", "Time", "AddDate"):
-					steps = append(steps, call)
-				default:
-					unknownTime = append(unknownTime, call)
-				}
+		// the loop instant and the terms of the values it continues with
+		var loopPhi *ssa.Phi
+		nPhi := 0
+		tb := newC04TermBuilder(p)
+		for i, in := range l.Header.Instrs {
+			ph, ok := in.(*ssa.Phi)
+			if !ok {
+				break
+			}
+			if c04IsTimeType(ph.Type()) {
+				loopPhi = ph
+				nPhi++
+				tb.Leaves[ph] = &c04T{Op: "leaf", Name: "T", Src: ph}
+			} else {
+				tb.Leaves[ph] = &c04T{Op: "leaf", Name: fmt.Sprintf("carried:%d", i), Src: ph}
 			}
 		}
-
-		// ---- step: at most one unit
-		st.checkStep(l, u, base, steps, unknownTime)
-
-		// ---- reset (not needed for seconds: the search runs on whole seconds)
-		if u != "Second" {
-			st.checkReset(l, u, base, resets, steps, unknownTime)
+		if nPhi != 1 {
+			r.Undecide("Next %s loop: the loop does not carry exactly one time.Time value (%d found)", u, nPhi)
+			continue
 		}
-
-		// ---- carry
+		root := tb.Root(next)
+		var backs []*c04T
+		backOf := map[*ssa.BasicBlock]*c04T{}
+		for i, pb := range l.Header.Preds {
+			if l.Body[pb] {
+				bt := tb.Term(root, loopPhi.Edges[i])
+				backs = append(backs, bt)
+				backOf[pb] = bt
+			}
+		}
+		B := c04Choice(backs)
+		sp := c04SpineOf(B)
+		lc := &c04LoopCtx{st: st, na: na, l: l, u: u, base: base, tb: tb, root: root, B: B, sp: sp, backOf: backOf}
+		lc.checkStep()
+		if u != "Second" {
+			lc.checkReset()
+		}
 		if u != "Month" {
-			st.checkCarry(l, u, base, isTop, floorOf[u], accOf[u])
+			lc.checkCarry(isTop, floorOf[u])
 		}
 	}
-
-	st.checkLimit(next, loops)
-	st.checkZone(next, loops)
+	st.checkLimit(na)
+	st.checkZone(na)
 }
 
-func (st *c04State) checkStep(l *c04Loop, u, base string, steps, unknown []*ssa.Call) {
-	r, p := st.r, st.p
+type c04LoopCtx struct {
+	st     *c04State
+	na     *c04NextA
+	l      *c04Loop
+	u      string
+	base   string
+	tb     *c04TermBuilder
+	root   *c04Frame2
+	B      *c04T
+	sp     *c04Spine
+	backOf map[*ssa.BasicBlock]*c04T
+}
+
+func c04AllConst(ts []*c04T) ([]int64, bool) {
+	var out []int64
+	for _, t := range ts {
+		if t.Op != "const" || !t.IsK {
+			return nil, false
+		}
+		out = append(out, t.K)
+	}
+	return out, true
+}
+
+// dateStep: time.Date(..., acc_u(x)+c, ...) advances unit u by c (and sets the other positions explicitly).
+func (lc *c04LoopCtx) dateStep(n *c04T) (int64, bool) {
+	pos, ok := map[string]int{"Month": 1, "Day": 2, "Hour": 3, "Minute": 4, "Second": 5}[lc.u]
+	if !ok || n.Op != "date" || len(n.Args) != 8 {
+		return 0, false
+	}
+	a := n.Args[pos]
+	if a.Op != "bin:+" {
+		return 0, false
+	}
+	acc := map[string]string{"Month": "Month", "Day": "Day", "Hour": "Hour", "Minute": "Minute", "Second": "Second"}[lc.u]
+	for _, pr := range [][2]*c04T{{a.Args[0], a.Args[1]}, {a.Args[1], a.Args[0]}} {
+		if pr[0].Op == "tm:"+acc && pr[1].Op == "const" && pr[1].IsK {
+			return pr[1].K, true
+		}
+	}
+	return 0, false
+}
+
+func (lc *c04LoopCtx) steps() (constSteps, computed []*c04T) {
+	for _, n := range lc.sp.nodes {
+		switch n.Op {
+		case "date":
+			if _, ok := lc.dateStep(n); ok {
+				constSteps = append(constSteps, n)
+			}
+		case "tm:AddDate":
+			if _, ok := c04AllConst(n.Args[1:]); ok {
+				constSteps = append(constSteps, n)
+			} else {
+				computed = append(computed, n)
+			}
+		case "tm:Add":
+			if _, ok := c04AllConst(n.Args[1:]); ok {
+				constSteps = append(constSteps, n)
+			} else {
+				computed = append(computed, n)
+			}
+		}
+	}
+	return
+}
+
+func (lc *c04LoopCtx) checkStep() {
+	r, p, u, l := lc.st.r, lc.st.p, lc.u, lc.l
 	rule := "C04.N2-search"
+	construct := lc.base + ": step"
 	unitNs := map[string]int64{"Hour": 3600e9, "Minute": 60e9, "Second": 1e9}
-	var constSteps, nonAddDate int
-	var bad string
-	var badPos token.Pos
-	for _, s := range steps {
-		if callIs(s, "time", "Time", "AddDate") {
-			if len(s.Call.Args) != 4 {
+	constSteps, computed := lc.steps()
+	judged := 0
+	bad := ""
+	var badT *c04T
+	for _, s := range constSteps {
+		if k, ok := lc.dateStep(s); ok {
+			judged++
+			if k > 1 {
+				bad, badT = fmt.Sprintf("time.Date(..., t.%s()+%d, ...) advances by more than one %s", u, k, u), s
+			}
+			continue
+		}
+		ks, _ := c04AllConst(s.Args[1:])
+		if s.Op == "tm:AddDate" {
+			if len(ks) != 3 {
 				continue
 			}
-			y, ok1 := c04ConstInt(s.Call.Args[1])
-			m, ok2 := c04ConstInt(s.Call.Args[2])
-			d, ok3 := c04ConstInt(s.Call.Args[3])
-			if !ok1 || !ok2 || !ok3 {
-				continue
-			}
-			constSteps++
+			y, m, d := ks[0], ks[1], ks[2]
+			judged++
 			switch u {
 			case "Month":
 				if y != 0 || m > 1 || (m == 1 && d > 0) {
-					bad, badPos = fmt.Sprintf("AddDate(%d,%d,%d) advances by more than one month", y, m, d), s.Pos()
+					bad, badT = fmt.Sprintf("AddDate(%d,%d,%d) advances by more than one month", y, m, d), s
 				}
 			case "Day":
 				if y != 0 || m != 0 || d > 1 {
-					bad, badPos = fmt.Sprintf("AddDate(%d,%d,%d) advances by more than one day", y, m, d), s.Pos()
+					bad, badT = fmt.Sprintf("AddDate(%d,%d,%d) advances by more than one day", y, m, d), s
 				}
 			default:
 				if y != 0 || m != 0 || d != 0 {
-					bad, badPos = fmt.Sprintf("AddDate(%d,%d,%d) advances by more than one %s", y, m, d, u), s.Pos()
+					bad, badT = fmt.Sprintf("AddDate(%d,%d,%d) advances by more than one %s", y, m, d, u), s
 				}
 			}
 			continue
 		}
-		d, ok := c04ConstInt(s.Call.Args[len(s.Call.Args)-1])
-		if !ok {
-			continue // computed durations (DST fix-ups) are not steps of the search
+		if len(ks) != 1 {
+			continue
 		}
-		constSteps++
+		d := ks[0]
 		lim := int64(0)
 		switch u {
 		case "Month":
-			constSteps--
-			nonAddDate++
 			continue // a month is not a constant duration: only AddDate is judged
 		case "Day":
 			lim = 36 * 3600e9 // the DST fix-ups of the day loop snap 23..25 h steps back to midnight; beyond 36 h a day is skipped
 		default:
 			lim = unitNs[u]
 		}
+		judged++
 		if d > lim {
-			bad, badPos = fmt.Sprintf("Add(%dns) advances by more than one %s", d, u), s.Pos()
+			bad, badT = fmt.Sprintf("Add(%dns) advances by more than one %s", d, u), s
 		}
 	}
-	construct := base + ": step"
 	switch {
 	case bad != "":
-		r.Violation(rule, construct, p.Pos(badPos), bad+": values of the "+u+" field are skipped, so an earlier matching instant can be missed")
-	case constSteps > 0:
+		r.Violation(rule, construct, c04TermPos(p, badT, c04IfPos(l.If)), bad+": values of the "+u+" field are skipped, so an earlier matching instant can be missed")
+	case judged > 0:
 		r.OK(rule, construct, p.Pos(c04IfPos(l.If)), "advances by at most one "+u)
-	case len(unknown) > 0:
-		r.Undecide("Next %s loop: the advance is made by %s, not by Add/AddDate with constants", u, callDesc(unknown[0]))
-	case len(steps) > 0 || nonAddDate > 0:
+	case len(lc.sp.unknown) > 0:
+		r.Undecide("Next %s loop: the instant the loop continues with is computed through %s: the advance cannot be judged", u, lc.sp.unknown[0])
+	case len(computed) > 0 || len(constSteps) > 0:
 		r.Undecide("Next %s loop: the advance is not an Add/AddDate with constant arguments", u)
+	case lc.B.Key() == "leaf[T]":
+		r.Violation(rule, construct, p.Pos(c04IfPos(l.If)), "the "+u+" loop continues with the very instant it started the iteration with: the search cannot reach a later matching "+u)
 	default:
-		r.Violation(rule, construct, p.Pos(c04IfPos(l.If)), "the "+u+" loop no longer advances the time (no Add/AddDate in the loop): the search cannot reach a later matching "+u)
+		r.Undecide("Next %s loop: no Add/AddDate/Date step recognised on the value the loop continues with", u)
 	}
 }
 
 // checkReset: when unit u has to be advanced, all lower-order fields must be
-// set to their minimum first, else a later-than-earliest instant is returned.
-func (st *c04State) checkReset(l *c04Loop, u, base string, resets, steps, unknown []*ssa.Call) {
-	r, p := st.r, st.p
+// set to their minimum in the same iteration, else a later-than-earliest instant is returned.
+func (lc *c04LoopCtx) checkReset() {
+	r, p, u, l := lc.st.r, lc.st.p, lc.u, lc.l
 	rule := "C04.N2-search"
-	construct := base + ": reset"
+	construct := lc.base + ": reset"
 	pos := p.Pos(c04IfPos(l.If))
-	// positions of time.Date arguments: year month day hour min sec nsec loc
 	firstLower := map[string]int{"Month": 2, "Day": 3, "Hour": 4, "Minute": 5}[u]
 	wantAcc := []string{"Year", "Month", "Day", "Hour", "Minute", "Second"}
-	var good *ssa.Call
-	var goodOuter ssa.Value // the value in the loop that carries the reset (the call itself, or the module helper wrapping it)
-	var bad string
-	var badPos token.Pos
-	undecided := ""
-	outerOf := map[*ssa.Call]ssa.Value{}
-	// one level of module helpers: startOfDay(t, loc) { return time.Date(...) }
-	for _, uc := range unknown {
-		callee := staticCallee(uc)
-		if callee == nil || !p.InModule(callee) {
-			continue
-		}
-		allInstrs(callee, func(in ssa.Instruction) {
-			if c, ok := in.(*ssa.Call); ok && (callIs(c, "time", "", "Date") || callIs(c, "time", "Time", "Truncate")) {
-				resets = append(resets, c)
-				outerOf[c] = uc
-			}
-		})
-	}
-	for _, c := range resets {
-		if callIs(c, "time", "", "Date") {
-			if len(c.Call.Args) != 8 {
+	var good, badT *c04T
+	bad, undecided := "", ""
+	for _, n := range lc.sp.nodes {
+		switch n.Op {
+		case "date":
+			if len(n.Args) != 8 {
 				continue
 			}
 			ok := true
 			for k := 0; k < 7; k++ {
-				a := c.Call.Args[k]
+				a := n.Args[k]
+				isAcc := strings.HasPrefix(a.Op, "tm:") && len(a.Args) == 1
 				if k >= firstLower {
 					want := int64(0)
 					if k == 2 {
 						want = 1
 					}
-					v, isK := c04ConstInt(a)
 					switch {
-					case isK && v == want:
-					case isK:
+					case a.Op == "const" && a.IsK && a.K == want:
+					case a.Op == "const" && a.IsK:
 						ok = false
-						bad, badPos = fmt.Sprintf("time.Date argument #%d is %d, the minimum is %d", k+1, v, want), c.Pos()
-					default:
-						ok = false
-						if name, _, isAcc := c04TimeCall(a); isAcc {
-							bad, badPos = fmt.Sprintf("time.Date keeps t.%s() in a lower-order position (argument #%d) instead of resetting it to %d", name, k+1, want), c.Pos()
-						} else {
-							undecided = fmt.Sprintf("time.Date argument #%d in the %s loop is neither a constant nor an accessor", k+1, u)
-						}
-					}
-				} else {
-					name, _, isAcc := c04TimeCall(a)
-					switch {
-					case isAcc && name == wantAcc[k]:
+						bad, badT = fmt.Sprintf("time.Date argument #%d is %d, the minimum is %d", k+1, a.K, want), n
 					case isAcc:
 						ok = false
-						bad, badPos = fmt.Sprintf("time.Date argument #%d (%s) is filled from t.%s()", k+1, wantAcc[k], name), c.Pos()
+						bad, badT = fmt.Sprintf("time.Date keeps t.%s() in a lower-order position (argument #%d) instead of resetting it to %d", a.Op[3:], k+1, want), n
+					default:
+						ok = false
+						undecided = fmt.Sprintf("time.Date argument #%d in the %s loop is neither a constant nor an accessor", k+1, u)
+					}
+				} else {
+					if a.Op == "bin:+" && len(a.Args) == 2 {
+						// acc(x)+const in the unit position: Date steps and resets at once
+						for _, pr := range [][2]*c04T{{a.Args[0], a.Args[1]}, {a.Args[1], a.Args[0]}} {
+							if strings.HasPrefix(pr[0].Op, "tm:") && len(pr[0].Args) == 1 && pr[1].Op == "const" && pr[1].IsK {
+								a = pr[0]
+								isAcc = true
+							}
+						}
+					}
+					switch {
+					case isAcc && a.Op[3:] == wantAcc[k]:
+					case isAcc:
+						ok = false
+						bad, badT = fmt.Sprintf("time.Date argument #%d (%s) is filled from t.%s()", k+1, wantAcc[k], a.Op[3:]), n
 					default:
 						ok = false
 						undecided = fmt.Sprintf("time.Date argument #%d in the %s loop is not a time.Time accessor", k+1, u)
@@ -430,109 +853,71 @@ func (st *c04State) checkReset(l *c04Loop, u, base string, resets, steps, unknow
 				}
 			}
 			if ok {
-				good = c
+				good = n
 			}
-			continue
-		}
-		// Truncate(d): resets everything below d on the absolute time line; equals the
-		// wall-clock reset only for units whose zone offsets are multiples of d
-		d, isK := c04ConstInt(c.Call.Args[len(c.Call.Args)-1])
-		if !isK {
-			undecided = "Truncate with a computed duration in the " + u + " loop"
-			continue
-		}
-		switch {
-		case u == "Minute" && d == 60e9:
-			good = c
-		case u == "Minute" && d == 1e9, u == "Hour" && (d == 1e9 || d == 60e9), u == "Day", u == "Month":
-			if d < map[string]int64{"Minute": 60e9, "Hour": 3600e9, "Day": 24 * 3600e9, "Month": 24 * 3600e9}[u] {
-				bad, badPos = fmt.Sprintf("Truncate(%dns) does not reset all fields below %s", d, u), c.Pos()
-			} else {
-				bad, badPos = fmt.Sprintf("Truncate(%dns) rounds on the absolute time line, which is not the start of the local %s in zones whose offset is not a multiple of it", d, u), c.Pos()
+		case "tm:Truncate":
+			if len(n.Args) != 2 || !(n.Args[1].Op == "const" && n.Args[1].IsK) {
+				undecided = "Truncate with a computed duration in the " + u + " loop"
+				continue
 			}
-		case u == "Hour" && d == 3600e9:
-			bad, badPos = "Truncate(1h) rounds on the absolute time line: in zones with a 30/45-minute offset (Asia/Kolkata, Asia/Kathmandu) this is not the start of the local hour", c.Pos()
-		default:
-			undecided = fmt.Sprintf("Truncate(%dns) in the %s loop", d, u)
+			d := n.Args[1].K
+			switch {
+			case u == "Minute" && d == 60e9:
+				good = n
+			case u == "Minute" && d == 1e9, u == "Hour" && (d == 1e9 || d == 60e9), u == "Day", u == "Month":
+				if d < map[string]int64{"Minute": 60e9, "Hour": 3600e9, "Day": 24 * 3600e9, "Month": 24 * 3600e9}[u] {
+					bad, badT = fmt.Sprintf("Truncate(%dns) does not reset all fields below %s", d, u), n
+				} else {
+					bad, badT = fmt.Sprintf("Truncate(%dns) rounds on the absolute time line, which is not the start of the local %s in zones whose offset is not a multiple of it", d, u), n
+				}
+			case u == "Hour" && d == 3600e9:
+				bad, badT = "Truncate(1h) rounds on the absolute time line: in zones with a 30/45-minute offset (Asia/Kolkata, Asia/Kathmandu) this is not the start of the local hour", n
+			default:
+				undecided = fmt.Sprintf("Truncate(%dns) in the %s loop", d, u)
+			}
 		}
 	}
-	var feedArgs []ssa.Value
-	if good != nil {
-		goodOuter = good
-		feedArgs = good.Call.Args
-		if o, ok := outerOf[good]; ok {
-			goodOuter = o
-			feedArgs = o.(*ssa.Call).Call.Args
+	constSteps, computed := lc.steps()
+	manual := false
+	for _, c := range computed {
+		if c.Op == "tm:Add" && len(c.Args) == 2 && c04TermHasAccessor(c.Args[1], "Minute", "Second", "Nanosecond") {
+			manual = true
 		}
 	}
 	switch {
 	case good != nil:
-		// reset and step must be composed within one iteration (merges inside the
-		// loop only, not the loop-carried phi of the header)
-		inIter := func(from ssa.Value, target func(ssa.Value) bool) bool {
-			seen := map[ssa.Value]bool{}
-			var walk func(v ssa.Value) bool
-			walk = func(v ssa.Value) bool {
-				if seen[v] {
-					return false
-				}
-				seen[v] = true
-				if target(v) {
-					return true
-				}
-				if ph, ok := v.(*ssa.Phi); ok && ph.Block() != l.Header && l.Body[ph.Block()] {
-					for _, e := range ph.Edges {
-						if walk(e) {
-							return true
-						}
-					}
-				}
-				return false
-			}
-			return walk(from)
-		}
-		isStep := func(v ssa.Value) bool {
-			for _, s := range steps {
-				if v == ssa.Value(s) {
-					return true
-				}
-			}
-			return false
-		}
 		resetFeedsStep, stepFeedsReset := false, false
-		for _, s := range steps {
-			if len(s.Call.Args) > 0 && inIter(s.Call.Args[0], func(v ssa.Value) bool { return v == goodOuter }) {
+		if _, isStep := lc.dateStep(good); isStep {
+			resetFeedsStep = true // one time.Date call both advances the unit and sets the lower-order fields
+		}
+		for _, s := range constSteps {
+			if c04Below(s, good) {
 				resetFeedsStep = true
 			}
-		}
-		for _, a := range feedArgs {
-			if _, c, ok := c04TimeCall(a); ok && len(c.Call.Args) > 0 && inIter(c.Call.Args[0], isStep) {
-				stepFeedsReset = true
-			}
-			if c04IsTimeType(a.Type()) && inIter(a, isStep) {
+			if c04Below(good, s) {
 				stepFeedsReset = true
 			}
 		}
 		switch {
-		case resetFeedsStep || len(steps) == 0:
-			r.OK(rule, construct, p.Pos(good.Pos()), "lower-order fields are set to their minimum before the advance")
+		case resetFeedsStep || len(constSteps) == 0:
+			r.OK(rule, construct, c04TermPos(p, good, c04IfPos(l.If)), "lower-order fields are set to their minimum before the advance")
 		case stepFeedsReset && u != "Month":
-			r.OK(rule, construct, p.Pos(good.Pos()), "lower-order fields are set to their minimum right after the advance")
+			r.OK(rule, construct, c04TermPos(p, good, c04IfPos(l.If)), "lower-order fields are set to their minimum right after the advance")
 		case stepFeedsReset:
-			r.Violation(rule, construct, p.Pos(good.Pos()), "the month is advanced BEFORE the day is reset to 1: AddDate normalises an overflowing day (Jan 31 + 1 month = Mar 3), so from the 29th-31st the following month is skipped and Next misses its matches")
+			r.Violation(rule, construct, c04TermPos(p, good, c04IfPos(l.If)), "the month is advanced BEFORE the day is reset to 1: AddDate normalises an overflowing day (Jan 31 + 1 month = Mar 3), so from the 29th-31st the following month is skipped and Next misses its matches")
 		default:
-			r.Violation(rule, construct, p.Pos(good.Pos()), "the reset of the lower-order fields is not applied to the instant that is advanced (its result does not reach the step of "+u+" in the same iteration): the first candidate after advancing is not the start of the next "+u)
+			r.Violation(rule, construct, c04TermPos(p, good, c04IfPos(l.If)), "the reset of the lower-order fields is not applied to the instant that is advanced (its result does not reach the step of "+u+" in the same iteration): the first candidate after advancing is not the start of the next "+u)
 		}
 	case bad != "":
-		r.Violation(rule, construct, p.Pos(badPos), bad+": after advancing "+u+" the search continues from a time of day/month later than the start of the new "+u+", so Next can return a later instant than the earliest match")
+		r.Violation(rule, construct, c04TermPos(p, badT, c04IfPos(l.If)), bad+": after advancing "+u+" the search continues from a time of day/month later than the start of the new "+u+", so Next can return a later instant than the earliest match")
 	case undecided != "":
 		r.Undecide("Next %s loop reset: %s", u, undecided)
-	case len(unknown) > 0:
-		r.Undecide("Next %s loop: the lower-order reset may be inside %s", u, callDesc(unknown[0]))
-	case manualReset(steps):
+	case len(lc.sp.unknown) > 0:
+		r.Undecide("Next %s loop: the instant the loop continues with is computed through %s: the lower-order reset may be in there", u, lc.sp.unknown[0])
+	case manual:
 		r.Undecide("Next %s loop: lower-order fields seem to be reset by subtracting accessor values (Add of a duration computed from t.Minute()/Second()/Nanosecond()): not a recognised reset form", u)
 	default:
-		r.Violation(rule, construct, pos, "when "+u+" has to be advanced the lower-order fields are no longer reset (no time.Date/Truncate in the loop): "+map[string]string{
+		r.Violation(rule, construct, pos, "when "+u+" has to be advanced the lower-order fields are no longer reset (no time.Date/Truncate on the value the loop continues with): "+map[string]string{
 			"Month":  "e.g. from 15 Jan 10:30 a schedule for March yields 15 Mar 10:30 or later instead of 1 Mar 00:00",
 			"Day":    "e.g. from the 1st 10:30 a schedule for the 5th yields the 5th at 10:30 or later instead of 00:00",
 			"Hour":   "e.g. from 10:30 a schedule for hour 12 yields 12:30 or later instead of 12:00",
@@ -542,19 +927,26 @@ func (st *c04State) checkReset(l *c04Loop, u, base string, resets, steps, unknow
 }
 
 // checkCarry: leaving the loop on a carry into the next higher unit must go
-// back to the top of the search, and the carry test must not depend on the
-// smallest value of the unit existing on the wall clock.
-func (st *c04State) checkCarry(l *c04Loop, u, base string, isTop func(*ssa.BasicBlock) bool, floor int64, acc string) {
-	r, p := st.r, st.p
+// back to the top of the search; the carry test must look at the instant the
+// loop continues with and must not depend on the smallest value of the unit
+// existing on the wall clock.
+func (lc *c04LoopCtx) checkCarry(isTop func(*ssa.BasicBlock) bool, floor int64) {
+	r, p, u, l := lc.st.r, lc.st.p, lc.u, lc.l
 	rule := "C04.N2-search"
-	construct := base + ": carry"
+	construct := lc.base + ": carry"
+	acc := u
 	type exit struct {
 		ifi   *ssa.If
-		toTop bool // branch (true/false) that goes to the top
+		toTop bool
 	}
 	var exits []exit
+	var blocks []*ssa.BasicBlock
 	for b := range l.Body {
-		if len(b.Instrs) == 0 {
+		blocks = append(blocks, b)
+	}
+	sort.Slice(blocks, func(i, j int) bool { return blocks[i].Index < blocks[j].Index })
+	for _, b := range blocks {
+		if len(b.Instrs) == 0 || b == l.If.Block() {
 			continue
 		}
 		ifi, ok := b.Instrs[len(b.Instrs)-1].(*ssa.If)
@@ -562,113 +954,72 @@ func (st *c04State) checkCarry(l *c04Loop, u, base string, isTop func(*ssa.Basic
 			continue
 		}
 		for i, s := range b.Succs {
-			if !l.Body[s] && s != l.Header && isTop(s) {
+			if !l.Body[s] && isTop(s) {
 				exits = append(exits, exit{ifi, i == 0})
 			}
 		}
-	}
-	if l.If != nil {
-		// the header's own edges are the match/no-match edges, not a carry
 	}
 	if len(exits) == 0 {
 		r.Violation(rule, construct, p.Pos(c04IfPos(l.If)), "no path from the "+u+" loop back to the top of the search: when advancing "+u+" carries into the next higher field that field (and the year limit) is not verified again, so Next returns instants on days/hours the expression excludes")
 		return
 	}
-	// The instant the loop carries from one iteration to the next: the single
-	// time.Time phi of the header.
-	var loopPhi *ssa.Phi
-	nPhi := 0
-	for _, in := range l.Header.Instrs {
-		ph, ok := in.(*ssa.Phi)
-		if !ok {
-			break
-		}
-		if c04IsTimeType(ph.Type()) {
-			loopPhi = ph
-			nPhi++
-		}
-	}
-	if nPhi != 1 {
-		loopPhi = nil
-	}
-	// freshness of a carry test: the tested instant must be the value the loop
-	// continues with (the back-edge value of the loop instant). "stale": the
-	// loop continues with a value obtained from the tested one by further
-	// Add/AddDate calls (fix-ups), which may cross into the next higher unit
-	// after the test was made.
-	freshness := func(ifi *ssa.If, toTop bool, instants []ssa.Value) string {
-		if loopPhi == nil {
-			return "unknown"
-		}
+	// freshness of a carry test against the value(s) the loop continues with on the stay edge
+	freshness := func(ifi *ssa.If, toTop bool, instants []*c04T) string {
 		stay := ifi.Block().Succs[0]
 		if toTop {
 			stay = ifi.Block().Succs[1]
 		}
-		var preds []*ssa.BasicBlock
+		var backs []*c04T
 		if stay == l.Header {
-			preds = []*ssa.BasicBlock{ifi.Block()}
+			if bt := lc.backOf[ifi.Block()]; bt != nil {
+				backs = append(backs, bt)
+			}
 		} else {
 			reach := reachableFrom(stay, map[*ssa.BasicBlock]bool{l.Header: true})
-			for _, pb := range l.Header.Preds {
-				if l.Body[pb] && reach[pb] {
-					preds = append(preds, pb)
+			for pb, bt := range lc.backOf {
+				if reach[pb] {
+					backs = append(backs, bt)
 				}
 			}
 		}
-		if len(preds) == 0 {
+		if len(backs) == 0 {
 			return "unknown"
 		}
-		isInstant := func(v ssa.Value) bool {
+		isInstant := func(t *c04T) bool {
 			for _, x := range instants {
-				if x == v {
+				if x.Key() == t.Key() {
 					return true
 				}
 			}
 			return false
 		}
 		res := "fresh"
-		for _, pb := range preds {
-			for i, hp := range l.Header.Preds {
-				if hp != pb {
-					continue
-				}
-				v := loopPhi.Edges[i]
-				if isInstant(v) {
-					continue
-				}
-				// does v derive from a tested instant through Add/AddDate (and merges inside the loop)?
-				seen := map[ssa.Value]bool{}
-				var walk func(v ssa.Value, added bool) bool
-				walk = func(v ssa.Value, added bool) bool {
-					if isInstant(v) {
-						return added
-					}
-					if seen[v] {
-						return false
-					}
-					seen[v] = true
-					switch x := v.(type) {
-					case *ssa.Phi:
-						if x.Block() == l.Header || !l.Body[x.Block()] {
-							return false
-						}
-						for _, e := range x.Edges {
-							if walk(e, added) {
-								return true
-							}
-						}
-					case *ssa.Call:
-						if n, _, ok := c04TimeCall(x); ok && (n == "Add" || n == "AddDate") {
-							return walk(x.Call.Args[0], true)
-						}
-					}
-					return false
-				}
-				if walk(v, false) {
-					return "stale"
-				}
-				res = "unknown"
+		for _, bt := range backs {
+			if isInstant(bt) {
+				continue
 			}
+			// bt wraps a tested instant in further Add/AddDate (and merges)?
+			var wraps func(t *c04T, added bool) bool
+			wraps = func(t *c04T, added bool) bool {
+				if isInstant(t) {
+					return added
+				}
+				switch t.Op {
+				case "choice":
+					for _, a := range t.Args {
+						if wraps(a, added) {
+							return true
+						}
+					}
+				case "tm:Add", "tm:AddDate":
+					return wraps(t.Args[0], true)
+				}
+				return false
+			}
+			if wraps(bt, false) {
+				return "stale"
+			}
+			res = "unknown"
 		}
 		return res
 	}
@@ -676,30 +1027,28 @@ func (st *c04State) checkCarry(l *c04Loop, u, base string, isTop func(*ssa.Basic
 	var floorPos, stalePos token.Pos
 	unknown, stale := false, false
 	for _, e := range exits {
-		cmp, ok := decodeCond(e.ifi.Cond, e.toTop)
+		ct := lc.tb.Term(lc.root, e.ifi.Cond)
+		op, x, y, ok := c04CmpTerm(ct, e.toTop)
 		if !ok {
 			unknown = true
 			continue
 		}
-		nx, cx, okx := c04TimeCall(cmp.X)
-		ny, cy, oky := c04TimeCall(cmp.Y)
-		kx, iskx := c04ConstInt(c04Strip(cmp.X))
-		ky, isky := c04ConstInt(c04Strip(cmp.Y))
-		var instants []ssa.Value
+		isAcc := func(t *c04T) bool { return strings.HasPrefix(t.Op, "tm:") && len(t.Args) == 1 }
+		var instants []*c04T
 		kind := ""
 		switch {
-		case okx && oky && nx == ny && cx.Call.Args[0] != cy.Call.Args[0]:
-			// same accessor on two different instants
-			instants = []ssa.Value{cx.Call.Args[0], cy.Call.Args[0]}
-			if c04AccessorUnit[nx] > c04UnitOrder[u] && (cmp.Op == token.NEQ || cmp.Op == token.LSS || cmp.Op == token.GTR) {
+		case isAcc(x) && isAcc(y) && x.Op == y.Op && x.Args[0].Key() != y.Args[0].Key():
+			instants = []*c04T{x.Args[0], y.Args[0]}
+			nx := x.Op[3:]
+			if c04AccessorUnit[nx] > c04UnitOrder[u] && (op == token.NEQ || op == token.LSS || op == token.GTR) {
 				kind = "robust" // the next higher field changed
-			} else if nx == acc && (cmp.Op == token.LSS || cmp.Op == token.GTR || cmp.Op == token.LEQ || cmp.Op == token.GEQ) {
+			} else if nx == acc && (op == token.LSS || op == token.GTR || op == token.LEQ || op == token.GEQ) {
 				kind = "robust" // the field itself went down: wrapped
 			}
-		case okx && isky && nx == acc && cmp.Op == token.EQL && ky == floor:
-			instants, kind = []ssa.Value{cx.Call.Args[0]}, "floor"
-		case oky && iskx && ny == acc && cmp.Op == token.EQL && kx == floor:
-			instants, kind = []ssa.Value{cy.Call.Args[0]}, "floor"
+		case isAcc(x) && y.Op == "const" && y.IsK && x.Op[3:] == acc && op == token.EQL && y.K == floor:
+			instants, kind = []*c04T{x.Args[0]}, "floor"
+		case isAcc(y) && x.Op == "const" && x.IsK && y.Op[3:] == acc && op == token.EQL && x.K == floor:
+			instants, kind = []*c04T{y.Args[0]}, "floor"
 		}
 		if kind == "" {
 			unknown = true
@@ -745,63 +1094,51 @@ func (st *c04State) checkCarry(l *c04Loop, u, base string, isTop func(*ssa.Basic
 	}
 }
 
-// checkLimit: N3.
-func (st *c04State) checkLimit(next *ssa.Function, loops map[string]*c04Loop) {
+// ---------------------------------------------------------------------------
+// N3 limit
+
+func (st *c04State) checkLimit(na *c04NextA) {
 	r, p := st.r, st.p
+	next := na.next
 	rule := "C04.N3-limit"
 	construct := "cron.SpecSchedule.Next year limit"
 	found := false
 	var msg, limitRel string
 	var pos token.Pos
+	yearPlus := func(a, b *c04T) (int64, bool) {
+		if a.Op != "tm:Year" {
+			return 0, false
+		}
+		if b.Op != "bin:+" {
+			return 0, false
+		}
+		for _, pr := range [][2]*c04T{{b.Args[0], b.Args[1]}, {b.Args[1], b.Args[0]}} {
+			if pr[0].Op == "tm:Year" && pr[1].Op == "const" && pr[1].IsK {
+				return pr[1].K, true
+			}
+		}
+		return 0, false
+	}
 	allInstrs(next, func(in ssa.Instruction) {
 		ifi, ok := in.(*ssa.If)
 		if !ok || found {
 			return
 		}
-		cmp, ok := decodeCond(ifi.Cond, true)
+		ct := na.tb.Term(na.root, ifi.Cond)
+		op, x, y, ok := c04CmpTerm(ct, true)
 		if !ok {
 			return
 		}
-		// one side: Year() of some instant; other side: Year() + const
-		side := func(a, b ssa.Value) (int64, bool) {
-			n, _, ok := c04TimeCall(a)
-			if !ok || n != "Year" {
-				return 0, false
-			}
-			bo, ok := b.(*ssa.BinOp)
-			if !ok || bo.Op != token.ADD {
-				return 0, false
-			}
-			for _, pr := range [][2]ssa.Value{{bo.X, bo.Y}, {bo.Y, bo.X}} {
-				if n2, _, ok := c04TimeCall(pr[0]); ok && n2 == "Year" {
-					if k, ok := c04ConstInt(pr[1]); ok {
-						return k, true
-					}
-				}
-			}
-			return 0, false
-		}
-		k, ok1 := side(cmp.X, cmp.Y)
-		op := cmp.Op
+		k, ok1 := yearPlus(x, y)
 		if !ok1 {
-			k, ok1 = side(cmp.Y, cmp.X)
-			switch op {
-			case token.GTR:
-				op = token.LSS
-			case token.LSS:
-				op = token.GTR
-			case token.GEQ:
-				op = token.LEQ
-			case token.LEQ:
-				op = token.GEQ
-			}
+			k, ok1 = yearPlus(y, x)
+			op = c04FlipOp(op)
 		}
 		if !ok1 {
 			return
 		}
 		found = true
 		pos = c04IfPos(ifi)
-		// the edge on which year > limit holds must return the zero time
 		var beyond *ssa.BasicBlock
 		switch op {
 		case token.GTR, token.GEQ:
@@ -812,9 +1149,6 @@ func (st *c04State) checkLimit(next *ssa.Function, loops map[string]*c04Loop) {
 			msg = "the year limit is tested with " + op.String()
 			return
 		}
-		// first calendar year that is given up: `year > start+k` gives up from start+k+1,
-		// `year >= start+k` from start+k. Every year up to start+5 can hold an instant
-		// less than five years after t, so it must still be examined.
 		firstGivenUp := k
 		rel := "t.Year() >= start year + " + fmt.Sprint(k)
 		if op == token.GTR || op == token.LEQ {
@@ -826,21 +1160,31 @@ func (st *c04State) checkLimit(next *ssa.Function, loops map[string]*c04Loop) {
 			return
 		}
 		limitRel = rel
+		// the give-up edge returns the zero time (possibly after jumps)
 		zero := false
-		if n := len(beyond.Instrs); n > 0 {
-			if ret, ok := beyond.Instrs[n-1].(*ssa.Return); ok && len(ret.Results) == 1 {
+		for blk, hops := beyond, 0; blk != nil && hops < 4; hops++ {
+			n := len(blk.Instrs)
+			if n == 0 {
+				break
+			}
+			if ret, ok := blk.Instrs[n-1].(*ssa.Return); ok && len(ret.Results) == 1 {
 				if kz, ok := ret.Results[0].(*ssa.Const); ok && kz.Value == nil {
 					zero = true
 				}
+				break
 			}
+			if _, ok := blk.Instrs[n-1].(*ssa.Jump); ok && n == 1 {
+				blk = blk.Succs[0]
+				continue
+			}
+			break
 		}
 		if !zero {
 			msg = "beyond the year limit Next does not return the zero time"
 			return
 		}
-		// the test must sit at the top of the search: its block dominates every loop header
-		for _, l := range loops {
-			if !ifi.Block().Dominates(l.Header) {
+		for _, l := range na.loops {
+			if l.Header != nil && !ifi.Block().Dominates(l.Header) {
 				msg = "the year-limit test is not at the top of the search (it does not dominate the " + l.Unit + " loop)"
 			}
 		}
@@ -851,6 +1195,9 @@ func (st *c04State) checkLimit(next *ssa.Function, loops map[string]*c04Loop) {
 			if c, ok := in.(*ssa.Call); ok {
 				if n, _, ok := c04TimeCall(c); ok && (n == "After" || n == "Before" || n == "Compare" || n == "Sub" || n == "Equal") {
 					other = true
+				}
+				if f := staticCallee(c); f != nil && p.InModule(f) {
+					other = true // a helper may hold the test in a form the term view does not expose
 				}
 			}
 		})
@@ -864,91 +1211,90 @@ func (st *c04State) checkLimit(next *ssa.Function, loops map[string]*c04Loop) {
 	r.Check(msg == "", rule, construct, p.Pos(pos), "gives up (returns time.Time{}) only when "+limitRel+", tested at the top of the search: every year up to start+5 is examined", msg)
 }
 
-// checkZone: N4.
-func (st *c04State) checkZone(next *ssa.Function, loops map[string]*c04Loop) {
+// ---------------------------------------------------------------------------
+// N4 zone and start instant
+
+// c04LinT folds a duration term into k + sum coef*symbol.
+func c04LinT(t *c04T, sym func(*c04T) (string, bool)) (c04Lin, bool) {
+	if name, ok := sym(t); ok {
+		return c04Lin{coef: map[string]int64{name: 1}}, true
+	}
+	if t.Op == "const" && t.IsK {
+		return c04Lin{coef: map[string]int64{}, k: t.K}, true
+	}
+	isConst := func(l c04Lin) bool {
+		for _, c := range l.coef {
+			if c != 0 {
+				return false
+			}
+		}
+		return true
+	}
+	switch t.Op {
+	case "un:-":
+		a, ok := c04LinT(t.Args[0], sym)
+		if !ok {
+			return c04Lin{}, false
+		}
+		out := c04Lin{coef: map[string]int64{}, k: -a.k}
+		for s, c := range a.coef {
+			out.coef[s] = -c
+		}
+		return out, true
+	case "bin:+", "bin:-":
+		a, ok1 := c04LinT(t.Args[0], sym)
+		b, ok2 := c04LinT(t.Args[1], sym)
+		if !ok1 || !ok2 {
+			return c04Lin{}, false
+		}
+		sign := int64(1)
+		if t.Op == "bin:-" {
+			sign = -1
+		}
+		out := c04Lin{coef: map[string]int64{}, k: a.k + sign*b.k}
+		for s, c := range a.coef {
+			out.coef[s] += c
+		}
+		for s, c := range b.coef {
+			out.coef[s] += sign * c
+		}
+		return out, true
+	case "bin:*":
+		a, ok1 := c04LinT(t.Args[0], sym)
+		b, ok2 := c04LinT(t.Args[1], sym)
+		if !ok1 || !ok2 {
+			return c04Lin{}, false
+		}
+		if isConst(b) {
+			a, b = b, a
+		}
+		if !isConst(a) {
+			return c04Lin{}, false
+		}
+		out := c04Lin{coef: map[string]int64{}, k: a.k * b.k}
+		for s, c := range b.coef {
+			out.coef[s] = a.k * c
+		}
+		return out, true
+	}
+	return c04Lin{}, false
+}
+
+func (st *c04State) checkZone(na *c04NextA) {
 	r, p := st.r, st.p
+	next := na.next
 	rule := "C04.N4-zone"
-	locField := FieldID{st.spec, "Location"}
-	isLocLoad := func(v ssa.Value) bool {
-		id, _, ok := fieldOfValue(v)
-		if !ok || id != locField {
-			return false
-		}
-		_, isLoad := v.(*ssa.UnOp)
-		return isLoad
-	}
-	// (a) conversion into the schedule's location
-	var inCall *ssa.Call
-	allInstrs(next, func(in ssa.Instruction) {
-		if c, ok := in.(*ssa.Call); ok && callIs(c, "time", "Time", "In") && len(c.Call.Args) == 2 {
-			if c04ThroughPhis(c.Call.Args[1], isLocLoad) {
-				inCall = c
-			}
-		}
-	})
-	if inCall != nil {
-		r.OK(rule, "cron.SpecSchedule.Next In(Location)", p.Pos(inCall.Pos()), "t is converted into SpecSchedule.Location")
-	} else {
-		r.Violation(rule, "cron.SpecSchedule.Next In(Location)", p.Pos(next.Pos()), "Next never converts t into SpecSchedule.Location: the fields are read on the wall clock of t's own zone, so 'CRON_TZ=Asia/Tokyo 0 6 * * ?' fires at 06:00 of the caller's zone")
-	}
-	// (b) every time.Date in Next is built in a location that comes from SpecSchedule.Location or t.Location()
-	nDate := 0
-	bad := ""
-	var badPos token.Pos
-	allInstrs(next, func(in ssa.Instruction) {
-		c, ok := in.(*ssa.Call)
-		if !ok || !callIs(c, "time", "", "Date") || len(c.Call.Args) != 8 {
-			return
-		}
-		nDate++
-		okAll := true
-		seen := map[ssa.Value]bool{}
-		var walk func(v ssa.Value)
-		walk = func(v ssa.Value) {
-			if seen[v] {
-				return
-			}
-			seen[v] = true
-			switch x := v.(type) {
-			case *ssa.Phi:
-				for _, e := range x.Edges {
-					walk(e)
-				}
-			case *ssa.Call:
-				if n, _, ok := c04TimeCall(x); !ok || n != "Location" {
-					okAll = false
-				}
-			default:
-				if !isLocLoad(v) {
-					okAll = false
-				}
-			}
-		}
-		walk(c.Call.Args[7])
-		if !okAll {
-			bad = "a time.Date in Next is built in a location that is neither SpecSchedule.Location nor t.Location()"
-			badPos = c.Pos()
-		}
-	})
-	if nDate > 0 {
-		r.Check(bad == "", rule, "cron.SpecSchedule.Next time.Date location", p.Pos(badPos), fmt.Sprintf("%d time.Date calls use the schedule's location", nDate), bad+": the reset lands on midnight/the hour of another zone and the fields are then read in a different zone than they were set in")
-	}
-	// (c) the search starts from a whole second derived from t
-	month := loops["Month"]
+	locName := st.spec + ".Location"
+	isSchedLoc := func(t *c04T) bool { return t.Op == "load" && t.Name == locName }
+	// the instant the search starts from: entry value of the time phi of the outermost search loop
 	var top *ssa.BasicBlock
-	for _, l := range loops {
-		if top == nil || l.Header.Dominates(top) {
+	for _, l := range na.loops {
+		if l.Header != nil && (top == nil || l.Header.Dominates(top)) {
 			top = l.Header
 		}
 	}
-	_ = month
-	construct := "cron.SpecSchedule.Next start instant"
-	if top == nil {
-		return
-	}
-	// the loop-carried instant: a phi of type time.Time in a block dominating `top` (or top itself) with an edge from outside
 	var start ssa.Value
-	for b := top; b != nil && start == nil; b = b.Idom() {
+	for b := top; b != nil; b = b.Idom() {
 		for _, in := range b.Instrs {
 			ph, ok := in.(*ssa.Phi)
 			if !ok {
@@ -957,10 +1303,14 @@ func (st *c04State) checkZone(next *ssa.Function, loops map[string]*c04Loop) {
 			if !c04IsTimeType(ph.Type()) {
 				continue
 			}
-			for i, e := range ph.Edges {
-				if !b.Dominates(b.Preds[i]) { // entry edge
-					start = e
+			isHeader := false
+			for i := range ph.Edges {
+				if b.Dominates(b.Preds[i]) {
+					isHeader = true
 				}
+			}
+			if isHeader {
+				start = ph // the outermost search loop wins (last one up the dominator chain)
 			}
 		}
 	}
@@ -968,221 +1318,217 @@ func (st *c04State) checkZone(next *ssa.Function, loops map[string]*c04Loop) {
 		r.Undecide("Next: the instant the search starts from could not be identified")
 		return
 	}
-	// walk back through time.Time method calls on the receiver
-	aligned := false
-	exact := ""     // "" unknown, "ok", or a message saying what is wrong
-	var added int64 // constant durations added after a Truncate
-	unknown := ""
-	seen := map[ssa.Value]bool{}
-	var walk func(v ssa.Value)
-	walk = func(v ssa.Value) {
-		if seen[v] || aligned {
+	// header phis contribute their entry edges only (the value before a loop is entered)
+	tb := newC04TermBuilder(p)
+	root := tb.Root(next)
+	startT := c04EntryTerm(tb, root, start)
+	// (a) conversion into the schedule's location
+	hasIn := startT.contains(func(x *c04T) bool {
+		return x.Op == "tm:In" && len(x.Args) == 2 && x.Args[1].contains(isSchedLoc)
+	})
+	if hasIn {
+		r.OK(rule, "cron.SpecSchedule.Next In(Location)", p.Pos(next.Pos()), "t is converted into SpecSchedule.Location")
+	} else if len(c04SpineOf(startT).unknown) > 0 {
+		r.Undecide("Next: the start instant is computed through %s: the conversion into SpecSchedule.Location cannot be traced", c04SpineOf(startT).unknown[0])
+	} else {
+		r.Violation(rule, "cron.SpecSchedule.Next In(Location)", p.Pos(next.Pos()), "Next never converts t into SpecSchedule.Location: the fields are read on the wall clock of t's own zone, so 'CRON_TZ=Asia/Tokyo 0 6 * * ?' fires at 06:00 of the caller's zone")
+	}
+	// (b) every time.Date reached from Next builds its instant in the schedule's location or t's own
+	nDate := 0
+	bad, undec := "", ""
+	var badPos token.Pos
+	tb.VisitTree(root, func(fr *c04Frame2, in ssa.Instruction) {
+		c, ok := in.(*ssa.Call)
+		if !ok || !callIs(c, "time", "", "Date") || len(c.Call.Args) != 8 {
 			return
 		}
-		seen[v] = true
-		switch x := v.(type) {
-		case *ssa.Phi:
-			// only the edges entering from outside the loop the phi heads
-			for i, e := range x.Edges {
-				if !x.Block().Dominates(x.Block().Preds[i]) {
-					walk(e)
-				}
-			}
-		case *ssa.Parameter:
-		case *ssa.Call:
-			n, _, ok := c04TimeCall(x)
-			if !ok {
-				unknown = callDesc(x)
-				return
-			}
-			switch n {
-			case "Truncate":
-				if d, ok := c04ConstInt(x.Call.Args[1]); ok && d > 0 && d%1e9 == 0 {
-					aligned = true
-					switch {
-					case d != 1e9:
-						exact = fmt.Sprintf("t is truncated to %dns, coarser than a second", d)
-					case added == 1e9:
-						exact = "ok"
-					case added <= 0:
-						exact = "the search starts at t truncated to the second, which is not after t: Next(t) returns t itself when t is a matching whole second"
-					default:
-						exact = fmt.Sprintf("the search starts %dns after t truncated to the second: the next whole second is skipped", added)
-					}
-					return
-				}
-			case "Add":
-				recv := x.Call.Args[0]
-				lin, okLin := c04Linear(x.Call.Args[1], func(v ssa.Value) (string, bool) {
-					if n, c, ok := c04TimeCall(v); ok && n == "Nanosecond" && c.Call.Args[0] == recv {
-						return "n", true
-					}
-					return "", false
-				})
-				if okLin && lin.coef["n"] == 0 {
-					added += lin.k
-					walk(recv)
-					return
-				}
-				if okLin {
-					aligned = lin.coef["n"] == -1 && lin.k%1e9 == 0
-					switch {
-					case lin.coef["n"] != -1:
-						exact = "the sub-second part of t is not removed exactly"
-					case lin.k+added == 1e9:
-						exact = "ok"
-					case lin.k+added <= 0:
-						exact = "the search starts at t truncated to the second, which is not after t: Next(t) returns t itself when t is a matching whole second"
-					default:
-						exact = fmt.Sprintf("the search starts %dns after t truncated to the second: the next whole second is skipped or the start is not a whole second", lin.k+added)
-					}
-					if !aligned {
-						return
-					}
-					return
-				}
-				if c04DependsOnNanosecond(x.Call.Args[1]) {
-					aligned = true
-					return
-				}
-			case "In", "UTC", "Local":
+		nDate++
+		lt := c04EntryTermIn(tb, fr, c.Call.Args[7])
+		for _, alt := range lt.alts() {
+			switch {
+			case isSchedLoc(alt):
+			case alt.Op == "tm:Location":
+			case alt.Op == "global":
+				bad = "a time.Date reached from Next is built in the fixed location " + alt.Name
+				badPos = c.Pos()
 			default:
-				unknown = "t." + n
+				undec = "the location of a time.Date reached from Next is computed as " + alt.Op + " " + alt.Name
+			}
+		}
+	})
+	switch {
+	case bad != "":
+		r.Violation(rule, "cron.SpecSchedule.Next time.Date location", p.Pos(badPos), bad+", neither SpecSchedule.Location nor t.Location(): the reset lands on midnight/the hour of another zone and the fields are then read in a different zone than they were set in")
+	case undec != "":
+		r.Undecide("Next: %s", undec)
+	case nDate > 0:
+		r.OK(rule, "cron.SpecSchedule.Next time.Date location", p.Pos(next.Pos()), fmt.Sprintf("%d time.Date calls use the schedule's location", nDate))
+	}
+	// (c) the search starts exactly at t truncated to the second plus one second
+	construct := "cron.SpecSchedule.Next start instant"
+	var verdicts []string
+	var walk func(t *c04T, added int64)
+	walk = func(t *c04T, added int64) {
+		switch t.Op {
+		case "choice":
+			for _, a := range t.Args {
+				walk(a, added)
+			}
+		case "leaf":
+			verdicts = append(verdicts, "raw")
+		case "tm:In", "tm:UTC", "tm:Local":
+			walk(t.Args[0], added)
+		case "tm:Truncate":
+			if len(t.Args) == 2 && t.Args[1].Op == "const" && t.Args[1].IsK && t.Args[1].K > 0 && t.Args[1].K%1e9 == 0 {
+				d := t.Args[1].K
+				switch {
+				case d != 1e9:
+					verdicts = append(verdicts, fmt.Sprintf("bad:t is truncated to %dns, coarser than a second", d))
+				case added == 1e9:
+					verdicts = append(verdicts, "ok")
+				case added <= 0:
+					verdicts = append(verdicts, "bad:the search starts at t truncated to the second, which is not after t: Next(t) returns t itself when t is a matching whole second")
+				default:
+					verdicts = append(verdicts, fmt.Sprintf("bad:the search starts %dns after t truncated to the second: the next whole second is skipped", added))
+				}
 				return
 			}
-			walk(x.Call.Args[0])
+			verdicts = append(verdicts, "unknown:Truncate")
+		case "tm:Add":
+			recv := t.Args[0]
+			lin, okLin := c04LinT(t.Args[1], func(x *c04T) (string, bool) {
+				if x.Op == "tm:Nanosecond" && len(x.Args) == 1 && x.Args[0].Key() == recv.Key() {
+					return "n", true
+				}
+				return "", false
+			})
+			switch {
+			case okLin && lin.coef["n"] == 0:
+				walk(recv, added+lin.k)
+			case okLin && lin.coef["n"] != -1:
+				verdicts = append(verdicts, "bad:the sub-second part of t is not removed exactly")
+			case okLin && lin.k+added == 1e9:
+				verdicts = append(verdicts, "ok")
+			case okLin && lin.k+added <= 0:
+				verdicts = append(verdicts, "bad:the search starts at t truncated to the second, which is not after t: Next(t) returns t itself when t is a matching whole second")
+			case okLin:
+				verdicts = append(verdicts, fmt.Sprintf("bad:the search starts %dns after t truncated to the second: the next whole second is skipped or the start is not a whole second", lin.k+added))
+			case c04TermHasAccessor(t.Args[1], "Nanosecond"):
+				verdicts = append(verdicts, "aligned")
+			default:
+				verdicts = append(verdicts, "unknown:Add of a computed duration")
+			}
 		default:
-			unknown = fmt.Sprintf("%T", v)
+			verdicts = append(verdicts, "unknown:"+t.Op+" "+t.Name)
 		}
 	}
-	walk(start)
+	walk(startT, 0)
+	allOK, aligned := len(verdicts) > 0, true
+	var badMsg, unk string
+	raw := false
+	for _, v := range verdicts {
+		switch {
+		case v == "ok":
+		case v == "aligned":
+			allOK = false
+		case v == "raw":
+			allOK, aligned, raw = false, false, true
+		case strings.HasPrefix(v, "bad:"):
+			allOK, aligned = false, false
+			badMsg = v[4:]
+		default:
+			allOK, aligned = false, false
+			unk = strings.TrimPrefix(v, "unknown:")
+		}
+	}
 	switch {
-	case exact == "ok":
+	case allOK:
 		r.OK(rule, construct, p.Pos(next.Pos()), "the search starts at t truncated to the second plus one second")
-	case exact != "":
-		r.Violation(rule, construct, p.Pos(next.Pos()), exact+" (Next must be the earliest whole second strictly after t)")
+	case badMsg != "":
+		r.Violation(rule, construct, p.Pos(next.Pos()), badMsg+" (Next must be the earliest whole second strictly after t)")
+	case unk != "":
+		r.Undecide("Next: the start instant is computed through %s: alignment to a whole second not decided", unk)
+	case raw:
+		r.Violation(rule, construct, p.Pos(next.Pos()), "the search starts from t without removing its sub-second part (no Truncate to seconds, no Add of a duration computed from t.Nanosecond()): Next returns instants that are not whole seconds, e.g. 10:00:01.5")
 	case aligned:
 		r.Note("Next: the start instant removes t's sub-second part, but that it is exactly the next whole second is not decided (non-linear expression)")
 		r.OK(rule, construct, p.Pos(next.Pos()), "the search starts from t with its sub-second part removed")
-	case unknown != "":
-		r.Undecide("Next: the start instant is computed through %s: alignment to a whole second not decided", unknown)
-	default:
-		r.Violation(rule, construct, p.Pos(next.Pos()), "the search starts from t without removing its sub-second part (no Truncate to seconds, no Add of a duration computed from t.Nanosecond()): Next returns instants that are not whole seconds, e.g. 10:00:01.5")
 	}
 }
 
-// c04Lin is k + sum coef[s]*s over named symbols.
-type c04Lin struct {
-	coef map[string]int64
-	k    int64
+// c04EntryTerm: the term of v where loop-header phis contribute only their
+// entry edges (the value before the loop is entered).
+func c04EntryTerm(tb *c04TermBuilder, root *c04Frame2, v ssa.Value) *c04T {
+	return c04EntryTermIn(tb, root, v)
 }
 
-// c04Linear folds v into a linear form over the symbols recognised by sym
-// (integer arithmetic, conversions between integer types ignored).
-func c04Linear(v ssa.Value, sym func(ssa.Value) (string, bool)) (c04Lin, bool) {
-	if name, ok := sym(v); ok {
-		return c04Lin{coef: map[string]int64{name: 1}}, true
-	}
-	if k, ok := c04ConstInt(v); ok {
-		return c04Lin{coef: map[string]int64{}, k: k}, true
-	}
-	switch x := v.(type) {
-	case *ssa.Convert:
-		if _, _, ok := c04IntOf(x.Type()); ok {
-			return c04Linear(x.X, sym)
-		}
-	case *ssa.ChangeType:
-		return c04Linear(x.X, sym)
-	case *ssa.UnOp:
-		if x.Op == token.SUB {
-			a, ok := c04Linear(x.X, sym)
-			if !ok {
-				return c04Lin{}, false
-			}
-			out := c04Lin{coef: map[string]int64{}, k: -a.k}
-			for s, c := range a.coef {
-				out.coef[s] = -c
-			}
-			return out, true
-		}
-	case *ssa.BinOp:
-		a, ok1 := c04Linear(x.X, sym)
-		b, ok2 := c04Linear(x.Y, sym)
-		if !ok1 || !ok2 {
-			return c04Lin{}, false
-		}
-		isConst := func(l c04Lin) bool {
-			for _, c := range l.coef {
-				if c != 0 {
-					return false
+func c04EntryTermIn(tb *c04TermBuilder, fr *c04Frame2, v ssa.Value) *c04T {
+	// Leaves apply to the root frame only; for header phis of the root function
+	// substitute the choice of their entry edges.
+	if fr.parent == nil {
+		for _, b := range fr.fn.Blocks {
+			for _, in := range b.Instrs {
+				ph, ok := in.(*ssa.Phi)
+				if !ok {
+					break
 				}
-			}
-			return true
-		}
-		switch x.Op {
-		case token.ADD, token.SUB:
-			sign := int64(1)
-			if x.Op == token.SUB {
-				sign = -1
-			}
-			out := c04Lin{coef: map[string]int64{}, k: a.k + sign*b.k}
-			for s, c := range a.coef {
-				out.coef[s] += c
-			}
-			for s, c := range b.coef {
-				out.coef[s] += sign * c
-			}
-			return out, true
-		case token.MUL:
-			if isConst(b) {
-				a, b = b, a
-			}
-			if !isConst(a) {
-				return c04Lin{}, false
-			}
-			out := c04Lin{coef: map[string]int64{}, k: a.k * b.k}
-			for s, c := range b.coef {
-				out.coef[s] = a.k * c
-			}
-			return out, true
-		}
-	}
-	return c04Lin{}, false
-}
-
-// c04DependsOnNanosecond: the operand closure of v contains a call of time.Time.Nanosecond.
-func c04DependsOnNanosecond(v ssa.Value) bool { return c04DependsOnAccessor(v, "Nanosecond") }
-
-// c04DependsOnAccessor: the operand closure of v (not looking through calls)
-// contains a call of one of the named time.Time accessors.
-func c04DependsOnAccessor(v ssa.Value, names ...string) bool {
-	seen := map[ssa.Value]bool{}
-	var walk func(v ssa.Value) bool
-	walk = func(v ssa.Value) bool {
-		if v == nil || seen[v] {
-			return false
-		}
-		seen[v] = true
-		if n, _, ok := c04TimeCall(v); ok {
-			for _, want := range names {
-				if n == want {
-					return true
+				if _, done := tb.Leaves[ph]; done {
+					continue
+				}
+				header := false
+				for i := range ph.Edges {
+					if b.Dominates(b.Preds[i]) {
+						header = true
+					}
+				}
+				if header {
+					tb.Leaves[ph] = c04Unknown("pending")
 				}
 			}
 		}
-		in, ok := v.(ssa.Instruction)
-		if !ok {
-			return false
-		}
-		if _, isCall := v.(*ssa.Call); isCall {
-			return false
-		}
-		for _, op := range in.Operands(nil) {
-			if *op != nil && walk(*op) {
-				return true
+		// resolve the pending header phis lazily: entry edges only
+		for ph, t := range tb.Leaves {
+			if t.Op != "unknown" || t.Name != "pending" {
+				continue
+			}
+			phi := ph.(*ssa.Phi)
+			var alts []*c04T
+			for i, e := range phi.Edges {
+				if !phi.Block().Dominates(phi.Block().Preds[i]) {
+					alts = append(alts, c04EntryEdge(tb, fr, e, 0))
+				}
+			}
+			if len(alts) > 0 {
+				tb.Leaves[ph] = c04Choice(alts)
+			} else {
+				tb.Leaves[ph] = c04Unknown("loop header without entry edge")
 			}
 		}
-		return false
 	}
-	return walk(v)
+	return tb.Term(fr, v)
+}
+
+// c04EntryEdge builds the term of an entry-edge value while header phis it
+// depends on are still pending (nested loops: outer header phis first).
+func c04EntryEdge(tb *c04TermBuilder, fr *c04Frame2, v ssa.Value, depth int) *c04T {
+	if depth > 8 {
+		return c04Unknown("nested loop headers")
+	}
+	if ph, ok := v.(*ssa.Phi); ok {
+		if t, pending := tb.Leaves[ph]; pending && t.Op == "unknown" && t.Name == "pending" {
+			var alts []*c04T
+			for i, e := range ph.Edges {
+				if !ph.Block().Dominates(ph.Block().Preds[i]) {
+					alts = append(alts, c04EntryEdge(tb, fr, e, depth+1))
+				}
+			}
+			if len(alts) == 0 {
+				return c04Unknown("loop header without entry edge")
+			}
+			res := c04Choice(alts)
+			tb.Leaves[ph] = res
+			return res
+		}
+	}
+	return tb.Term(fr, v)
 }
